@@ -1,0 +1,50 @@
+//go:build verif
+
+// Contracts for Uniq and Union in slice.go (C18: the merged lists hold exactly the union of what the
+// upstreams report, nothing twice), checked by nsqvc. Comment-only file.
+// Uses the predicates `in` and `nodup` of zz_contracts_verif.go.
+
+package stringy
+
+// Uniq: the result has no duplicates and the same set of elements as s; s itself is untouched
+// (the result lives in memory allocated by this call).
+//@ func Uniq(s []string) (r []string)
+//@   props C18
+//@   ensures[no-dup] nodup(result, len(result))
+//@   ensures[subset] forall k int :: {result[k]} 0 <= k && k < len(result) ==> in(s, len(s), result[k])
+//@   ensures[superset] forall j int :: {s[j]} 0 <= j && j < len(s) ==> in(result, len(result), old(s[j]))
+//@   ensures[fresh] fresh(result)
+//@   modifies
+//@   loop 0
+//@     invariant[idx] rangeindex < len(s)
+//@     invariant[fresh] fresh(r)
+//@     invariant[s-kept] forall k int :: {s[k]} 0 <= k && k < len(s) ==> s[k] == old(s[k])
+//@     invariant[no-dup] nodup(r, len(r))
+//@     invariant[subset] forall k int :: {r[k]} 0 <= k && k < len(r) ==> in(s, rangeindex + 1, r[k])
+//@     invariant[superset] forall j int :: {s[j]} 0 <= j && j <= rangeindex && j < len(s) ==> in(r, len(r), s[j])
+//@   loop 1
+//@     invariant[not-yet] forall k int :: {r[k]} 0 <= k && k <= rangeindex && k < len(r) ==> r[k] != entry
+
+// Union: s stays in place, every element of a is present afterwards, nothing else is added, and no
+// duplicate is introduced. The entries are appended to s (possibly into its spare capacity), so `a` must
+// not live in the backing array of s.
+//@ func Union(s []string, a []string) []string
+//@   props C18
+//@   requires[apart] len(a) == 0 || base(a) != base(s)
+//@   ensures[kept] len(result) >= len(s) && forall k int :: {result[k]} 0 <= k && k < len(s) ==> result[k] == old(s[k])
+//@   ensures[has-a] forall j int :: {a[j]} 0 <= j && j < len(a) ==> in(result, len(result), old(a[j]))
+//@   ensures[only-from-a] forall k int :: {result[k]} len(s) <= k && k < len(result) ==> in(a, len(a), result[k])
+//@   ensures[a-kept] forall j int :: {a[j]} 0 <= j && j < len(a) ==> a[j] == old(a[j])
+//@   ensures[no-dup] old(nodup(s, len(s))) ==> nodup(result, len(result))
+//@   modifies elems(s)
+//@   loop 0
+//@     invariant[idx] rangeindex < len(a)
+//@     invariant[a-kept] forall j int :: {a[j]} 0 <= j && j < len(a) ==> a[j] == old(a[j])
+//@     invariant[array] base(s) == old(base(s)) || fresh(s)
+//@     invariant[kept] len(s) >= old(len(s)) && forall k int :: {s[k]} 0 <= k && k < old(len(s)) ==> s[k] == old(s[k])
+//@     invariant[has-a] forall j int :: {a[j]} 0 <= j && j <= rangeindex && j < len(a) ==> in(s, len(s), a[j])
+//@     invariant[only-from-a] forall k int :: {s[k]} old(len(s)) <= k && k < len(s) ==> in(a, rangeindex + 1, s[k])
+//@     invariant[no-dup] old(nodup(s, len(s))) ==> nodup(s, len(s))
+//@   loop 1
+//@     invariant[found] found ==> in(s, len(s), entry)
+//@     invariant[not-yet] !found ==> forall k int :: {s[k]} 0 <= k && k <= rangeindex && k < len(s) ==> s[k] != entry
